@@ -140,7 +140,7 @@ theorem rowwise_selected_feasible (Es : Rat → Rat) (nb : Rat → Nat) (szs : R
       have hhi : Es b.hi ≤ 0 := by
         rw [← hb]; exact rwBisect_hi Es _ _ (le_of_lt c2.1)
       cases hs : rwSweep Es nb szs
-          ((List.range 11).map (fun (k : Nat) => b.hi + (k : Nat) * (c.step / 10))) none with
+          ((List.range (c.nExtra + 1)).map (fun (k : Nat) => b.hi + (k : Nat) * (c.step / 10))) none with
       | none => simp [hs] at h
       | some st =>
         obtain ⟨s, t⟩ := st
@@ -151,10 +151,10 @@ theorem rowwise_selected_feasible (Es : Rat → Rat) (nb : Rat → Nat) (szs : R
         simp only [rwExcess]
         refine rwSweep_feasible Es nb szs _ none (by intro s t e; cases e) ?_ s t hs
         intro _ t0 rest ht
-        have : (List.range 11).map (fun (k : Nat) => b.hi + (k : Nat) * (c.step / 10))
+        have : (List.range (c.nExtra + 1)).map (fun (k : Nat) => b.hi + (k : Nat) * (c.step / 10))
             = (b.hi + ((0 : Nat) : Rat) * (c.step / 10)) ::
-              (List.range' 1 10).map (fun (k : Nat) => b.hi + (k : Nat) * (c.step / 10)) := by
-          rfl
+              ((List.range c.nExtra).map Nat.succ).map (fun (k : Nat) => b.hi + (k : Nat) * (c.step / 10)) := by
+          rw [List.range_succ_eq_map, List.map_cons]
         rw [this] at ht
         injection ht with ht _
         rw [← ht]; simpa using hhi
